@@ -65,7 +65,13 @@ class PtypeHooks(Hooks):
             return
         got = str(out.value.ptype) if out.ok and hasattr(out.value, 'ptype') else (
             'ok-without-ptype' if out.ok else type(out.exc).__name__)
-        if kind == 'mul':
+        px_conflict = (kind == 'mul' and p.pixelscale is not None and w.pixelscale is not None and
+                       tuple(float(x) for x in p.pixelscale) != tuple(float(x) for x in w.pixelscale))
+        if kind == 'mul' and px_conflict and not out.ok and isinstance(out.exc, ValueError) and self.doc.result(wt, str(p.ptype)) is not None:
+            # premise from the live operands: the product is type-legal but the samplings disagree -- refusing it (ValueError) is the
+            # documented behaviour; the table has nothing to say about this step (its refusal atomicity is still judged below)
+            it.probe('type_legal_but_sampling_conflict')
+        elif kind == 'mul':
             cls = type(p).__name__
             doc_pt = self.doc.classes.get(cls) if cls != 'Plane' else None
             pid = ev['a'][MUL[fn][0]][1:]
